@@ -79,6 +79,52 @@ theorem O_getK_panic_false {h : Heap} {a : Nat} {key : Str} {k : Kind} {p : Pani
   obtain ⟨v, _, hv, hg⟩ := O_get_of_typeOf ht hk
   simp [O.getK, hg, getVal_kind, hv]
 
+/-! ### facts about `TF.indexOf` (the character at a position found by `strings.Index`, `strings.IndexAny`) -/
+
+theorem indexOf_ge (c : Char) (s : Str) : -1 ≤ TF.indexOf c s := by
+  induction s with
+  | nil => simp [TF.indexOf]
+  | cons x xs ih => simp only [TF.indexOf]; split_ifs <;> omega
+
+theorem indexOf_get (c : Char) (s : Str) (h : 0 ≤ TF.indexOf c s) : s[(TF.indexOf c s).toNat]? = some c := by
+  induction s with
+  | nil => simp [TF.indexOf] at h
+  | cons x xs ih =>
+    simp only [TF.indexOf] at h ⊢
+    split
+    · simp_all
+    · split
+      · simp_all
+      · have h0 : 0 ≤ TF.indexOf c xs := by omega
+        rw [show (TF.indexOf c xs + 1).toNat = (TF.indexOf c xs).toNat + 1 by omega]
+        simpa using ih h0
+
+theorem indexOf_get_pos (c : Char) (s : Str) (h : 0 < TF.indexOf c s) : s[(TF.indexOf c s).toNat]? = some c :=
+  indexOf_get c s (by omega)
+
+theorem indexOf_ne {c₁ c₂ : Char} (hc : c₁ ≠ c₂) (s : Str) (h : 0 ≤ TF.indexOf c₁ s) :
+    TF.indexOf c₁ s ≠ TF.indexOf c₂ s := by
+  intro he
+  have h1 := indexOf_get c₁ s h
+  have h2 := indexOf_get c₂ s (he ▸ h)
+  rw [he, h2] at h1
+  exact hc (Option.some.inj h1).symm
+
+/-- `strings.IndexAny(s, "c₁c₂")` as the translator writes it, in the terms in which the model splits a
+tree form: the first separator is `c₁` at a positive position, or `c₂` at a positive position, or
+there is none at a positive position -/
+theorem indexAny2_eq {c₁ c₂ : Char} (hc : (c₁ == c₂) = false) (s : Str) :
+    (if TF.indexOf c₁ s < 0 then TF.indexOf c₂ s else if TF.indexOf c₂ s < 0 then TF.indexOf c₁ s
+      else min (TF.indexOf c₁ s) (TF.indexOf c₂ s)) =
+    if TF.indexOf c₁ s > 0 && (TF.indexOf c₂ s < 0 || TF.indexOf c₁ s < TF.indexOf c₂ s) then TF.indexOf c₁ s
+    else if TF.indexOf c₂ s > 0 && (TF.indexOf c₁ s < 0 || TF.indexOf c₂ s < TF.indexOf c₁ s) then TF.indexOf c₂ s
+    else if TF.indexOf c₁ s < 0 && TF.indexOf c₂ s < 0 then -1 else 0 := by
+  have g1 := indexOf_ge c₁ s
+  have g2 := indexOf_ge c₂ s
+  have ne : 0 ≤ TF.indexOf c₁ s → TF.indexOf c₁ s ≠ TF.indexOf c₂ s := indexOf_ne (by simpa using hc) s
+  simp only [Int.min_def, Bool.and_eq_true, Bool.or_eq_true, decide_eq_true_eq]
+  split_ifs <;> omega
+
 
 /-! ### facts about the model's mutators, allocation and `stepL` / `stepO` -/
 
@@ -262,6 +308,9 @@ theorem stepO_list (h : Heap) (a : Nat) (key : Str) : TF.stepO h a key false =
 end TFGen
 open TFGen
 
+/- the character at a found position, once the splitting has decided which position it is -/
+attribute [local simp] indexOf_get indexOf_get_pos
+
 /-- closes one case: syntactic agreement, or exhaustive splitting -/
 local macro "gen_case" : tactic =>
   `(tactic| first
@@ -285,11 +334,11 @@ theorem getGen_eq_aux (fuel : Nat) :
     obtain ⟨ihL, ihO⟩ := ih
     constructor
     · intro h a tf
-      simp only [getLGen, TF.getL, TF.split, TF.parseIdx, ihL, ihO]
+      simp only [getLGen, TF.getL, TF.split, indexAny2_eq, Char.reduceBEq, TF.parseIdx, ihL, ihO]
       gen_case
       gen_absurd
     · intro h a tf
-      simp only [getOGen, TF.getO, TF.split, TF.parseIdx, ihL, ihO]
+      simp only [getOGen, TF.getO, TF.split, indexAny2_eq, Char.reduceBEq, TF.parseIdx, ihL, ihO]
       gen_case
       gen_absurd
 
@@ -302,11 +351,11 @@ theorem typeGen_eq_aux (fuel : Nat) :
     obtain ⟨ihL, ihO⟩ := ih
     constructor
     · intro h a tf
-      simp only [typeLGen, TF.typeL, TF.split, TF.parseIdx, ihL, ihO]
+      simp only [typeLGen, TF.typeL, TF.split, indexAny2_eq, Char.reduceBEq, TF.parseIdx, ihL, ihO]
       gen_case
       gen_absurd
     · intro h a tf
-      simp only [typeOGen, TF.typeO, TF.split, ihL, ihO]
+      simp only [typeOGen, TF.typeO, TF.split, indexAny2_eq, Char.reduceBEq, ihL, ihO]
       gen_case
       gen_absurd
 
@@ -319,11 +368,11 @@ theorem unsetGen_eq_aux (fuel : Nat) :
     obtain ⟨ihL, ihO⟩ := ih
     constructor
     · intro h a tf
-      simp only [unsetLGen, TF.unsetL, TF.split, TF.parseIdx, ihL, ihO]
+      simp only [unsetLGen, TF.unsetL, TF.split, indexAny2_eq, Char.reduceBEq, TF.parseIdx, ihL, ihO]
       gen_case
       gen_absurd
     · intro h a tf
-      simp only [unsetOGen, TF.unsetO, TF.split, O.unset, ihL, ihO]
+      simp only [unsetOGen, TF.unsetO, TF.split, indexAny2_eq, Char.reduceBEq, O.unset, ihL, ihO]
       gen_case
       gen_absurd
 
@@ -336,13 +385,13 @@ theorem setGen_eq_aux (fuel : Nat) :
     obtain ⟨ihL, ihO⟩ := ih
     constructor
     · intro h a tf g
-      simp only [setLGen, TF.setL, TF.split, TF.parseIdx, stepL_obj, stepL_list, ihL, ihO, setLGen_loop1_eq, setLGen_loop2_eq,
+      simp only [setLGen, TF.setL, TF.split, indexAny2_eq, Char.reduceBEq, TF.parseIdx, stepL_obj, stepL_list, ihL, ihO, setLGen_loop1_eq, setLGen_loop2_eq,
         setLGen_loop3_eq, O_new_empty, L_new_empty, L_add_obj, L_add_list, L_replace_obj, L_replace_list,
         count_append_obj, count_append_list, items_append_obj, items_append_list]
       gen_case
       gen_absurd
     · intro h a tf g
-      simp only [setOGen, TF.setO, TF.split, stepO_obj, stepO_list, ihL, ihO, O_new_empty, L_new_empty, O.set, O.setLoop, parseVal,
+      simp only [setOGen, TF.setO, TF.split, indexAny2_eq, Char.reduceBEq, stepO_obj, stepO_list, ihL, ihO, O_new_empty, L_new_empty, O.set, O.setLoop, parseVal,
         fields_append_obj, fields_append_list]
       gen_case
       gen_absurd
